@@ -6,9 +6,12 @@
 // all alternatives whose accumulated cost is <= the bound are explored, depth first, by
 // re-execution. Replays check that the runnable set at each step equals the recorded one.
 //
-// Partitioning over worker processes: all workers explore the tree above the `split`-th
-// branching level identically; the sub-trees hanging off that level are numbered in DFS order and
-// worker i takes the numbers congruent to i.
+// Partitioning over worker processes: a bounded-preemption tree is a comb (a long default spine with
+// sub-trees hanging off every level), so the units of work are the sub-trees entered by the
+// `split`-th deviation (choice != 0) of a path, wherever it happens. Units are numbered in DFS
+// order - the numbering only depends on the part of the tree every worker walks - and worker i
+// takes the numbers congruent to i; paths with fewer than `split` deviations are executed by every
+// worker and counted by worker 0.
 
 use std::{
     collections::hash_map::DefaultHasher,
@@ -31,6 +34,12 @@ pub fn open_window() {
     WINDOW_OPEN.store(true, Ordering::SeqCst);
 }
 
+/// Called by a driver when the part of the execution whose schedules matter is over (teardown is
+/// run under the deterministic warm-up policy again).
+pub fn close_window() {
+    WINDOW_OPEN.store(false, Ordering::SeqCst);
+}
+
 #[derive(Clone, Debug)]
 struct Level {
     chosen: u32,
@@ -45,7 +54,7 @@ pub struct Cfg {
     pub bound: u32,
     pub max_exec: u64,
     pub max_wall: Duration,
-    /// number of branching levels explored by every worker before the tree is partitioned
+    /// the deviation (1-based) whose sub-trees are the units distributed over the workers
     pub split: usize,
     pub worker: (usize, usize),
     pub forced: Option<Vec<u32>>,
@@ -59,7 +68,7 @@ impl Cfg {
             bound,
             max_exec: u64::MAX,
             max_wall: Duration::from_secs(3600),
-            split: 3,
+            split: 1,
             worker: common::worker(),
             forced: None,
             use_window: false,
@@ -83,9 +92,7 @@ struct Shared {
     cap_hit: bool,
     nondeterminism: Option<String>,
     subtree: u64,
-    frozen: bool,
-    reached_split: bool,
-    branch_depth: usize,
+    devs: usize,
 }
 
 pub struct BoundedDfs {
@@ -108,7 +115,7 @@ impl Scheduler for BoundedDfs {
         }
         if s.started {
             // account for the finished execution
-            let counted = if s.reached_split { !s.frozen } else { self.cfg.worker.0 == 0 };
+            let counted = if self.cfg.worker.1 > 1 && s.devs < self.cfg.split { self.cfg.worker.0 == 0 } else { true };
             if counted {
                 s.counted += 1;
             }
@@ -127,10 +134,9 @@ impl Scheduler for BoundedDfs {
                 };
                 top.chosen += 1;
                 if top.split {
-                    let split = top.split;
                     s.subtree += 1;
                     let id = s.subtree;
-                    if split && !self.mine(id) {
+                    if !self.mine(id) {
                         continue;
                     }
                 }
@@ -144,9 +150,7 @@ impl Scheduler for BoundedDfs {
         s.started = true;
         s.depth = 0;
         s.preempt = 0;
-        s.frozen = false;
-        s.reached_split = false;
-        s.branch_depth = 0;
+        s.devs = 0;
         s.executions += 1;
         WINDOW_OPEN.store(!self.cfg.use_window, Ordering::SeqCst);
         Some(Schedule::new(0))
@@ -197,31 +201,14 @@ impl Scheduler for BoundedDfs {
                 return None;
             }
             choice = lvl.chosen;
-            if lvl.allowed > 1 {
-                s.branch_depth += 1;
-            }
-            if lvl.split {
-                s.reached_split = true;
-            }
         } else {
-            let mut allowed = if costs && s.preempt + 1 > self.cfg.bound { 1 } else { alts.len() as u32 };
-            if s.frozen {
-                allowed = 1;
-            }
-            let split = allowed > 1 && self.cfg.worker.1 > 1 && s.branch_depth == self.cfg.split;
-            if split {
-                s.reached_split = true;
-                s.subtree += 1;
-                let id = s.subtree;
-                if !self.mine(id) {
-                    s.frozen = true;
-                }
-            }
-            if allowed > 1 {
-                s.branch_depth += 1;
-            }
+            let allowed = if costs && s.preempt + 1 > self.cfg.bound { 1 } else { alts.len() as u32 };
+            let split = allowed > 1 && self.cfg.worker.1 > 1 && s.devs + 1 == self.cfg.split;
             s.stack.push(Level { chosen: 0, allowed, sig, costs, split });
             choice = 0;
+        }
+        if choice != 0 {
+            s.devs += 1;
         }
         if choice != 0 && s.stack[d].costs {
             s.preempt += 1;
